@@ -284,6 +284,58 @@ def check_untouched(case):
 
 
 # ---------------------------------------------------------------------------------------
+# (iv) one Controller object run several times (after missed seed C07-6): every run starts from
+# scratch - same initial state => same final state, same step count, same final time
+# ---------------------------------------------------------------------------------------
+def check_controller_rerun(case):
+    dt, t0, t1, x = sc.times_of(case["time"])
+    eq = sc.SimEq(case["eq"], dt)
+    s = case["solver"]
+    solver = SolverBase.from_name(s["name"], pde=eq, backend=s["backend"], **sc.solver_kwargs(s))
+    objs, recs = sc.build_trackers(case["trackers"], dt, t0)
+    controller = Controller(solver, t_range=(t0, t1), tracker=objs)
+    init = sc.build_state(case["state"])
+    n = case["time"]["N"]
+    cls = sc.theta_class(case["time"])
+    runs = []
+    for i in range(int(case["runs"])):
+        state = init.copy()
+        try:
+            res = controller.run(state, dt)
+        except sc.ConvergenceError as err:
+            raise sc.Rejected(f"ConvergenceError: {err}") from err
+        runs.append((np.array(res.data, copy=True), int(solver.info["steps"]), float(controller.info["t_final"])))
+    labels = _labels(case) + [f"runs:{len(runs)}"]
+    data0, steps0, tf0 = runs[0]
+    if not _finite(data0):
+        return {"nt": False, "key": _key(case), "labels": labels + ["non-finite"]}
+    ctx = f"dt={dt!r} t_range=({t0!r}, {t1!r}) ({cls}) solver={s['name']}:{s['backend']}"
+    for i, (data, steps, tf) in enumerate(runs[1:], start=2):
+        if steps != steps0:
+            raise Violation(f"run {i} of the same Controller from the same initial state reports {steps} steps, the "
+                            f"first run {steps0} (N={n}); {ctx}", key=_vkey("rerun", "steps", case))
+        if tf != tf0:
+            raise Violation(f"run {i} of the same Controller ends at t_final={tf!r}, the first run at {tf0!r}; {ctx}",
+                            key=_vkey("rerun", "t_final", case))
+        if not np.array_equal(data, data0):
+            raise Violation(f"run {i} of the same Controller from the same initial state ends in another state: "
+                            f"max |diff| = {float(np.abs(data - data0).max()):.3g}; first {data0.tolist()!r}, "
+                            f"now {data.tolist()!r}; {ctx}", key=_vkey("rerun", "state", case))
+    if cls == "whole" and steps0 != n:
+        raise Violation(f"range of exactly N={n} steps was simulated with {steps0} steps; {ctx}",
+                        key=_vkey("rerun", "steps!=N", case))
+    moved = not np.array_equal(data0, np.asarray(init.data))
+    return {"nt": n >= 3 and moved and len(runs) >= 2, "key": [_key(case), case["runs"]], "labels": labels}
+
+
+def rerun_strategy(mode):
+    # without trackers: the interrupts of a tracker that is initialised a second time may split the run
+    # into other segments, which changes the rounding of the time axis (not what is judged here)
+    base = case_strategy(mode, max_trackers=0, hook=True)
+    return st.builds(lambda c, r: dict(c, runs=r), base, st.sampled_from([2, 2, 3]))
+
+
+# ---------------------------------------------------------------------------------------
 def _sub(name, strat, check, mode, quick, thorough, shards_q, rule):
     return SubCheck(name=name, strategy=strat, check=check, mode=mode,
                     budget={"quick": quick, "thorough": thorough},
@@ -303,6 +355,10 @@ SUBCHECKS = [
          check_accounting, "nojit", 2000, 40000, 5, R_ACCT),
     _sub("initial_state_untouched_nojit", lambda: untouched_strategy("nojit"),
          check_untouched, "nojit", 600, 12000, 2, R_INIT),
+    _sub("controller_rerun_nojit", lambda: rerun_strategy("nojit"), check_controller_rerun, "nojit", 800, 15000, 2,
+         "one Controller object run 2-3 times from the same initial state; non-trivial = N >= 3 and the state moved"),
+    _sub("controller_rerun_jit", lambda: rerun_strategy("jit"), check_controller_rerun, "jit", 8, 100, 1,
+         "one Controller object run 2-3 times (compiled stepper); non-trivial = N >= 3 and the state moved"),
     _sub("observation_metamorphic_jit", lambda: case_strategy("jit", min_trackers=1, max_trackers=3, hook=True),
          check_metamorphic, "jit", 12, 200, 2, R_META),
     _sub("step_time_accounting_jit", lambda: case_strategy("jit", max_trackers=3),
